@@ -116,6 +116,7 @@ def canon(path):
 
 
 _cache = {}
+ALIASES = {}   # def path -> extra canonical names (rules/roles.py: a private helper found by its role, under its usual name)
 
 
 def is_(path, pat):
@@ -124,7 +125,12 @@ def is_(path, pat):
         return False
     k = path
     if k not in _cache:
-        _cache[k] = canon(path)
+        c0 = canon(path)
+        if ALIASES:
+            extra = ALIASES.get(path) or ALIASES.get(strip_generics(path))
+            if extra:
+                c0 = set(c0) | set(extra)
+        _cache[k] = c0
     c = _cache[k]
     if pat in c:
         return True
